@@ -151,7 +151,7 @@ class C12(F.PropCheck):
         chans = sorted({r[1] for r in b.relays}) + [rng.randrange(0, 8), 255, -1] + [c_ + 256 for c_ in rsch] + [c_ - 256 for c_ in rsch]
         if x < 0.5:
             ch = rng.choice(rsch * 3 + chans) if (rsch or chans) else 0
-            cmd = rng.choice([k['CMD_ENTER_CFG_MODE']] * 3 + [k['CMD_RECALIBRATE']] * 4 + [0, 1, 8001, 8999, 9001, rng.randrange(-5, 10000)] +
+            cmd = rng.choice([k['CMD_ENTER_CFG_MODE']] * 3 + [k['CMD_RECALIBRATE']] * 4 + [0, 1, 7999, 8001, 8999, 9001, rng.randrange(-5, 10000)] +
                              # values that equal a command only after narrowing to 16 / 8 bits
                              [k['CMD_ENTER_CFG_MODE'] + 65536, k['CMD_RECALIBRATE'] + 65536, k['CMD_ENTER_CFG_MODE'] - 65536, k['CMD_RECALIBRATE'] | 0x10000000])
             auth = rng.choice([0, 0, 0, 1, 1, 2, 255, 128])
@@ -313,7 +313,7 @@ class C12(F.PropCheck):
                 nfast = rng.randrange(1, 10)
                 for j in range(n):
                     if gapk == 'short': g = rng.choice([50000, 150000, 400000, 1000000, 1900000])
-                    elif gapk == 'edge': g = rng.choice([1999999, 2000000, 1999980, 1000000, 999999])
+                    elif gapk == 'edge': g = rng.choice([1999999, 2000000, 2000001, 1999980, 1000000, 999999])
                     elif gapk == 'mixed': g = rng.choice([100000, 100000, 100000, 2500000, 310000, 290000])
                     elif gapk == 'long40': g = 40 * 60 * 1000000 + rng.choice([0, 12345])
                     elif gapk == 'wrap31': g = (1 << 31) + rng.choice([-1000000, 0, 1000000])
@@ -480,12 +480,14 @@ class C12(F.PropCheck):
                 # known finding toggle-gap-u32-wrap, precisely: every link of the ten-change chain is "quick" in the 32-bit arithmetic
                 # of the legacy handler (time since the previous change to "active", modulo 2^32 us, below 2 s) although at least
                 # one of these times is a real pause of 2 s or more
-                links = []
-                for j in range(len(c) - NT + 1, len(c)):
-                    # (changes to "active" during the 400 ms silent start-up period are not time-stamped by the device)
-                    prev_act = [c[q] for q in range(j) if dirs[i][q] == 1 and c[q] >= 400000]
-                    links.append(c[j] - (prev_act[-1] if prev_act else -boot32))
-                if all((d % M32) < 2000000 + tol for d in links) and any(d >= 2000000 for d in links): wrapped = True
+                # (changes to "active" during the 400 ms silent start-up period are not time-stamped by the device; the class is
+                # "explained by the 32-bit wrap" under either reading of which changes carry a time stamp)
+                for silent_us in (400000, 0):
+                    links = []
+                    for j in range(len(c) - NT + 1, len(c)):
+                        prev_act = [c[q] for q in range(j) if dirs[i][q] == 1 and c[q] >= silent_us]
+                        links.append(c[j] - (prev_act[-1] if prev_act else -boot32))
+                    if all((d % M32) < 2000000 + tol for d in links) and any(d >= 2000000 for d in links): wrapped = True
             return False, wrapped
         for n, e in enumerate(case.evs):
             kd, ints, data = e[0], e[1], bytes(e[2]); seg = segs.get(n, [])
